@@ -10,6 +10,7 @@ package main
 import (
 	"fmt"
 	"io"
+	"os"
 	"path/filepath"
 	"sort"
 	"strings"
@@ -283,7 +284,26 @@ func TestVerif_C14Pipe(t *testing.T) {
 			}
 			defer r.cleanup()
 			var hdrSeen *pCamera
+			// every fifth connection: storage fails to finish the motion recording that a 'clear'
+			// ends (its temporary file disappears before the rename) - the marker must still
+			// restart detection and cost no frame alignment
+			sabotage := idx%5 == 4 && cam.Model != "boson"
+			inFrame, sabotaged := false, 0
 			r.serve(feedStream(cam, hdr, frames, cw), func(name string) {
+				switch name {
+				case "conn.frame.received":
+					inFrame = true
+				case "conn.frame.processed":
+					inFrame = false
+				case "rec.stop.closed":
+					if sabotage && !inFrame {
+						temps, _ := filepath.Glob(filepath.Join(r.OutDir, "*."+cptvTempExt))
+						for _, t := range temps {
+							os.Remove(t)
+							sabotaged++
+						}
+					}
+				}
 				if name == "conn.header" && headerInfo != nil {
 					hdrSeen = &pCamera{Brand: headerInfo.Brand(), Model: headerInfo.Model(), Firmware: headerInfo.Firmware(), Serial: uint64(headerInfo.CameraSerial()),
 						ResX: headerInfo.ResX(), ResY: headerInfo.ResY(), FPS: headerInfo.FPS(), FrameSize: headerInfo.FrameSize()}
@@ -368,10 +388,14 @@ func TestVerif_C14Pipe(t *testing.T) {
 			exp, _ := expectRecordings(cfg, cam, frames)
 			var expDone []expRecording
 			for _, e := range exp {
+				if sabotage && e.EndedBy == "clear" {
+					continue // its file was taken away before it could be finished
+				}
 				if !e.Open {
 					expDone = append(expDone, e)
 				}
 			}
+			c.Count("clears_with_failing_stop", int64(sabotaged))
 			if cam.Model != "boson" {
 				if len(mfiles) != len(expDone) {
 					c.Violation("motion-recordings-differ", "", fmt.Sprintf("%d motion files, reference pipeline predicts %d: %s", len(mfiles), len(expDone), describeRecs(exp)))
